@@ -161,6 +161,17 @@ def solve_text(args):
 _OBS = None      # obligations of the current `discharge` call, inherited by the forked pool workers (z3 terms cannot be pickled)
 
 
+_UNDEC = None    # shared (forked) counters: how many path instances of a clause the solvers have already left undecided in this discharge call
+_UNDEC_SLOTS = 4096
+
+
+def _clause_slot(name):
+    import re as _re, zlib
+    base = _re.sub(r"~\d+$", "", name)
+    base = _re.sub(r"@L\d+", "", base)
+    return zlib.crc32(base.encode()) % _UNDEC_SLOTS
+
+
 def _solve_index(args):
     i, thorough = args
     ob = _OBS[i]
@@ -168,7 +179,15 @@ def _solve_index(args):
     text = to_smt2(ob)
     sha = hashlib.sha1(text.encode()).hexdigest()[:16]
     kind = ob.kind + ("@known" if ob.meta.get("known_pattern") else "")
-    return solve_text((i, text, kind, thorough)) + (sha,)
+    slot = _clause_slot(ob.name)
+    if _UNDEC is not None and not thorough and kind not in ("cover",) and not kind.endswith("@known") and _UNDEC[slot] >= 3:
+        # several path instances of this very clause were already left undecided by the whole solver ladder (this never happens on a tree
+        # where the clause holds): the remaining instances get one short attempt - an undecided clause stays undecided either way
+        kind = kind + "@known"
+    res = solve_text((i, text, kind, thorough))
+    if _UNDEC is not None and res[1] == "undecided" and ob.kind != "cover":
+        _UNDEC[slot] += 1
+    return res + (sha,)
 
 
 def _batch_external(name, cmd, texts, per_query_s):
@@ -247,9 +266,11 @@ def discharge(obligations, thorough=False, workers=None):
         return
     workers = workers or WORKERS
     _OBS = obligations
+    global _UNDEC
     try:
         n = len(obligations)
         import multiprocessing as mp
+        _UNDEC = mp.get_context("fork").Array("i", _UNDEC_SLOTS, lock=False)
         if thorough:
             size = 40
             chunks = [list(range(a, min(n, a + size))) for a in range(0, n, size)]
@@ -271,6 +292,7 @@ def discharge(obligations, thorough=False, workers=None):
                         results.append(r)
     finally:
         _OBS = None
+        _UNDEC = None
     for idx, verdict, backend, secs, model, tried, cross, sha in results:
         ob = obligations[idx]
         ob.verdict, ob.backend, ob.time, ob.model = verdict, backend, secs, model
